@@ -20,6 +20,10 @@
 //                         nextafter, on boundary r; the use of the expression by Random is tied by UR/UI/AT)
 //   AT seed min max k     Uniform(min,max); setSeed; the k-th getIntValue() (1-based), the k-th getValue() of an
 //                         identical twin, and the unit value of that draw (twin Uniform(0,1))
+//   HG seed mean sd ops..  history of one Random::Gaussian(mean,sd) after setSeed(seed); ops: g getValue, f<n> fillArray(n),
+//                         m<bits> setMean, x<bits> setStdDev, s<seed> setSeed; prints every value produced
+//   HU seed min max ops.. history of one Random::Uniform(min,max): g getValue, i getIntValue (printed i<dec>), f<n> fillArray,
+//                         m<bits> setMin, x<bits> setMax, s<seed> setSeed
 //   SRCH seed n           failing-input search: the property's predicates on n generated cases (see below)
 //   WIT seed min max lim  first draw (1-based) at which Uniform(min,max).getIntValue() >= max or < min, and the
 //                         unit-interval value of that draw (from a twin Uniform(0,1) with the same seed)
@@ -130,6 +134,24 @@ int main() {
             int iv = 0; double rv = 0, r = 0;
             for (long long i = 1; i <= k; ++i) { iv = u.getIntValue(); rv = w.getValue(); r = t.getValue(); }
             printf("%d %llx %llx ", iv, (unsigned long long)bitsOf(rv), (unsigned long long)bitsOf(r));
+        } else if (cmd == "HG" || cmd == "HU") {
+            int seed; is >> seed; uint64_t a = rdhex(is), b = rdhex(is);
+            Random::Gaussian* g = 0; Random::Uniform* u = 0; Random* rr;
+            if (cmd == "HG") { g = new Random::Gaussian(ofBits(a), ofBits(b)); rr = g; } else { u = new Random::Uniform(ofBits(a), ofBits(b)); rr = u; }
+            rr->setSeed(seed);
+            std::string op;
+            while (is >> op) {
+                char c = op[0]; std::string arg = op.substr(1);
+                if (c == 'g') printf("%llx ", (unsigned long long)bitsOf(rr->getValue()));
+                else if (c == 'i' && u) printf("i%d ", u->getIntValue());
+                else if (c == 'f') { int n = atoi(arg.c_str()); std::vector<Real> v(n); rr->fillArray(v.data(), n);
+                                     for (int k = 0; k < n; ++k) printf("%llx ", (unsigned long long)bitsOf(v[k])); }
+                else if (c == 'm') { double x = ofBits(strtoull(arg.c_str(), 0, 16)); if (g) g->setMean(x); else u->setMin(x); }
+                else if (c == 'x') { double x = ofBits(strtoull(arg.c_str(), 0, 16)); if (g) g->setStdDev(x); else u->setMax(x); }
+                else if (c == 's') rr->setSeed(atoi(arg.c_str()));
+                else printf("? ");
+            }
+            delete rr;
         } else if (cmd == "SRCH") {
             int seed, n; is >> seed >> n;
             long long evals = 0; int fails = 0;
@@ -168,6 +190,42 @@ int main() {
                     if (!(a >= lo && a < lo + w) && fails++ < 5) printf("FAIL real-range seed %d min %a max %a draw %d: %a\n", sd, lo, lo + w, i + 1, a);
                     if (!(k >= std::floor(lo) && k < std::floor(lo) + std::ceil(w)) && fails++ < 5)
                         printf("FAIL int-range seed %d min %a max %a draw %d: %d\n", sd, std::floor(lo), std::floor(lo) + std::ceil(w), i + 1, k); }
+                // (f) histories: parameters changed on a generator in use, after odd and even numbers of draws.
+                //     A twin constructed with the NEW parameters and the same seed has identical underlying deviates,
+                //     so after the change both must return bit-identical values; stddev := 0 must give exactly the mean;
+                //     setSeed must restart the stream (and drop the cached second deviate); fillArray = repeated getValue.
+                { int k = (int)std::floor(pick.getValue() * 7);            // 0..6 draws before the change
+                  double m0 = pick.getValue() * 20 - 10, s0 = pick.getValue() * 5 + 0.1, m1 = pick.getValue() * 200 - 100, s1 = pick.getValue() * 3 + 0.05;
+                  Random::Gaussian A(m0, s0), B(m1, s1), Z(m0, s0); A.setSeed(sd); B.setSeed(sd); Z.setSeed(sd);
+                  for (int i = 0; i < k; ++i) { A.getValue(); B.getValue(); Z.getValue(); }
+                  A.setMean(m1); A.setStdDev(s1);
+                  ++evals; if ((A.getMean() != m1 || A.getStdDev() != s1) && fails++ < 5) printf("FAIL gaussian-getters seed %d: getMean/getStdDev do not return the values set\n", sd);
+                  for (int i = 0; i < 5; ++i) { ++evals; double a = A.getValue(), b = B.getValue();
+                      if (bitsOf(a) != bitsOf(b) && fails++ < 5)
+                          printf("FAIL gaussian-history seed %d: Gaussian(%a,%a), %d draws, setMean(%a), setStdDev(%a), then value %d is %a but a generator with these parameters from the start gives %a\n", sd, m0, s0, k, m1, s1, i + 1, a, b); }
+                  Z.setStdDev(0); ++evals; { double z = Z.getValue();
+                      if (z != m0 && fails++ < 5) printf("FAIL gaussian-zero-stddev seed %d: Gaussian(%a,%a), %d draws, setStdDev(0), next value %a is not the mean\n", sd, m0, s0, k, z); }
+                  // reseed after k+6 draws (odd or even): must equal a fresh generator
+                  Random::Gaussian Fz(m1, s1); Fz.setSeed(sd ^ 1); A.setSeed(sd ^ 1);
+                  for (int i = 0; i < 3; ++i) { ++evals; double a = A.getValue(), b = Fz.getValue();
+                      if (bitsOf(a) != bitsOf(b) && fails++ < 5) printf("FAIL gaussian-reseed seed %d: after %d draws setSeed(%d), value %d is %a, a fresh generator gives %a\n", sd, k + 5, sd ^ 1, i + 1, a, b); }
+                  // fillArray after an odd number of getValue calls
+                  Random::Gaussian P(m0, s0), Q(m0, s0); P.setSeed(sd); Q.setSeed(sd); P.getValue(); Q.getValue();
+                  Real arr[5]; P.fillArray(arr, 5);
+                  for (int i = 0; i < 5; ++i) { ++evals; double b = Q.getValue();
+                      if (bitsOf(arr[i]) != bitsOf(b) && fails++ < 5) printf("FAIL gaussian-fillArray seed %d: element %d after one getValue is %a, getValue gives %a\n", sd, i, arr[i], b); }
+                  // Uniform: setMin/setMax on a generator in use
+                  double a0 = std::floor(pick.getValue() * 100 - 50), w0 = 1 + std::floor(pick.getValue() * 9), a1 = std::floor(pick.getValue() * 100 - 50), w1 = 1 + std::floor(pick.getValue() * 9);
+                  Random::Uniform U(a0, a0 + w0), V(a1, a1 + w1); U.setSeed(sd); V.setSeed(sd);
+                  for (int i = 0; i < k; ++i) { U.getValue(); V.getValue(); }
+                  if (k % 2) { U.setMin(a1); U.setMax(a1 + w1); } else { U.setMax(a1 + w1); U.setMin(a1); }
+                  ++evals; if ((U.getMin() != a1 || U.getMax() != a1 + w1) && fails++ < 5) printf("FAIL uniform-getters seed %d\n", sd);
+                  for (int i = 0; i < 4; ++i) { evals += 2; double a = U.getValue(), b = V.getValue(); int ia = U.getIntValue(), ib = V.getIntValue();
+                      if ((bitsOf(a) != bitsOf(b) || ia != ib) && fails++ < 5)
+                          printf("FAIL uniform-history seed %d: Uniform(%a,%a), %d draws, setMin(%a)/setMax(%a), then value %a / int %d but a generator with these bounds from the start gives %a / %d\n", sd, a0, a0 + w0, k, a1, a1 + w1, a, ia, b, ib); }
+                  U.setSeed(sd); V.setSeed(sd); Real ua[3]; U.fillArray(ua, 3);
+                  for (int i = 0; i < 3; ++i) { ++evals; double b = V.getValue(); if (bitsOf(ua[i]) != bitsOf(b) && fails++ < 5) printf("FAIL uniform-fillArray seed %d element %d\n", sd, i); }
+                }
                 // (e) Gaussian: same seed -> same sequence, finite values
                 Random::Gaussian g1(lo, w), g2(lo, w); g1.setSeed(sd); g2.setSeed(sd);
                 for (int i = 0; i < 300; ++i) { ++evals; double a = g1.getValue(), b = g2.getValue();
